@@ -44,6 +44,10 @@ def _rand_dgm(rng, n, with_inf=False):
     return np.array(out, dtype=float).reshape(-1, 2)
 
 
+def labels_needed_later(plot_only, ndg):
+    return all(0 <= i < ndg for i in plot_only)
+
+
 def _check_plot_diagrams(rep, rng, counters):
     from persim import plot_diagrams
     for current in (True, False):
@@ -58,7 +62,10 @@ def _check_plot_diagrams(rep, rng, counters):
         lifetime = rng.random() < 0.4
         legend = rng.random() < 0.5
         title = rng.choice([None, "T"])
-        plot_only = rng.choice([None, None, [ndg - 1]])
+        # any selection of the diagrams: single, reordered, repeated indices
+        plot_only = rng.choice([None, None, [ndg - 1], [0, 0], list(range(ndg))[::-1], [rng.randrange(ndg) for _i in range(rng.randint(1, 3))]])
+        if plot_only and labels_needed_later(plot_only, ndg):
+            pass
         xy_range = rng.choice([None, None, [-1, 12, -1, 12]])
         diagonal = rng.random() < 0.7
         labels = rng.choice([None, ["L%d" % i for i in range(ndg)]])
